@@ -467,6 +467,24 @@ func init() {
 		}
 		return e.havocCall(st, "Failed", args, rt)
 	}
+	fixedBytes := func(name string, n uint64) intrinsic {
+		return func(e *Env, st *State, args []Val, rt types.Type, c *ssa.CallCommon) []Out {
+			outs := e.pureCall(st, name, args, rt)
+			if len(outs) == 1 && outs[0].res.K == kTerm {
+				st.define(tEq(tApp("slen64", outs[0].res.T), bvLit(n, 64)))
+				st.define(tNot(tEq(outs[0].res.T, "nilStr")))
+			}
+			return outs
+		}
+	}
+	intrinsicsByName["(github.com/ethereum/go-ethereum/common.Address).Bytes"] = fixedBytes("(github.com/ethereum/go-ethereum/common.Address).Bytes", 20)
+	intrinsicsByName["(github.com/ethereum/go-ethereum/common.Hash).Bytes"] = fixedBytes("(github.com/ethereum/go-ethereum/common.Hash).Bytes", 32)
+	intrinsicsByName["github.com/cosmos/cosmos-sdk/types.NewIntFromBigInt"] = func(e *Env, st *State, args []Val, rt types.Type, c *ssa.CallCommon) []Out {
+		// *big.Int -> sdk.Int (mathematical integers; nil maps to the zero Int in the SDK)
+		t := e.term(st, args[0])
+		s := e.sortOfT(args[0].Typ)
+		return one(st, Val{K: kTerm, Typ: rt, Sort: sInt, T: tIte(tEq(t, "none_"+s), "0", tApp("val_"+s, t))})
+	}
 	// ---- codec ----
 	const cdc = "(github.com/cosmos/cosmos-sdk/codec.BinaryCodec)."
 	intrinsicsByName[cdc+"MustMarshal"] = func(e *Env, st *State, args []Val, rt types.Type, c *ssa.CallCommon) []Out {
